@@ -394,14 +394,14 @@ def render_jobs(run, thorough):
     cached_twice = [[("cached",), ("ctx",), ("cached",)]]
     add("r2-memo-cache-pb1", same_page, 1, 0, 2, "pb", bound=1, limit=2000 if thorough else 400, bodies=cached_twice,
         hot=[["cache.py", None], ["template.py", "cache"], ["util.py", "__get__"], ["runtime.py", "cache"]])
-    add("r2-memo-template-pb1", same_page, 1, 0, 2, "pb", bound=1, limit=2000 if thorough else 150, bodies=[[("ns",), ("cached",)]],
+    add("r2-memo-template-pb1", same_page, 1, 0, 2, "pb", bound=1, limit=2000 if thorough else 100, bodies=[[("ns",), ("cached",)]],
         hot=[["template.py", "__init__"], ["template.py", "reserved_names"], ["template.py", "_get_module_info_for_template"],
              ["template.py", "get_module_source_metadata"], ["template.py", "_compile_text"], ["util.py", "__get__"]])
-    add("r2-memo-lru-pb1", two_pages, 2, 0, 1, "pb", bound=1, limit=2000 if thorough else 150,
+    add("r2-memo-lru-pb1", two_pages, 2, 0, 1, "pb", bound=1, limit=2000 if thorough else 100,
         bodies=[[("inc",), ("ns",)], [("ns",), ("inc",)]],
         hot=[["lookup.py", "get_template"], ["lookup.py", "_load"], ["lookup.py", "_check"], ["util.py", "__getitem__"],
              ["util.py", "__setitem__"], ["util.py", "_manage_size"]])
-    add("r2-memo-lexer-pb1", two_pages, 2, 0, 2, "pb", all_files=True, bound=1, limit=1500 if thorough else 40,
+    add("r2-memo-lexer-pb1", two_pages, 2, 0, 2, "pb", all_files=True, bound=1, limit=1000 if thorough else 15,
         bodies=[[("ctx",)], [("inc",)]], hot=[["lexer.py", "match_reg"]])
     # directed: every single preemption inside TemplateLookup.adjust_uri / filename_to_uri (the URI cache is an LRU that
     # other threads trim) while the other thread renders a page that adds URI-cache entries
@@ -452,6 +452,7 @@ def judge_renders(run, jobs, outs, tw, tlc_pool):
         cands = None
     ncs_for = None
     if cands:
+        cands.sort(key=lambda gt: 0 if any(x["ev"] == "memo" for x in gt[1]["events"]) else 1)
         g0, t = cands[0]
         ncs_for = g0
         ends = [i for i, e in enumerate(t["events"]) if e["ev"] == "end"]
@@ -472,6 +473,12 @@ def judge_renders(run, jobs, outs, tw, tlc_pool):
         e["id"] = 10 ** 6 + 5
         e["events"][-1]["mutex"] = "A"                         # the lookup's lock left held at the end
         ncs_for["ncs"] = [a, b, c, d, e]
+        memos = [i for i, x in enumerate(t["events"]) if x["ev"] == "memo" and x["kw"]]
+        if memos:
+            f = copy.deepcopy(t)
+            f["id"] = 10 ** 6 + 6
+            f["events"][memos[-1]]["kw"] = f["events"][memos[-1]]["kw"][1:]     # a cache call without one of the def's cache_* arguments
+            ncs_for["ncs"].append(f)
 
     def validate(g):
         traces = g["traces"] + g["ncs"]
@@ -524,8 +531,9 @@ def judge_renders(run, jobs, outs, tw, tlc_pool):
 
 def render_mc(run, thorough, tw):
     """(name, cfg, expect_violation) for the RenderShared model-checking runs."""
-    base = ('CONSTANTS Threads = {%s} Pages = {%s} Progs <- MCProgs CtxVals = {%s} Cells = {"base", "lib", "inc", "cache"} Cap = %d SharedBuf = %s\n'
+    base = ('CONSTANTS Threads = {%s} Pages = {%s} Progs <- MCProgs CtxVals = {%s} Cells = {"base", "lib", "inc", "cache"} Cap = %d SharedBuf = %s PublishEarly = FALSE\n'
             'SPECIFICATION Spec\nINVARIANT RenderIsolation\nINVARIANT BoundUnderConcurrency\nINVARIANT SizeIsCount\nINVARIANT MemoStable\n'
+            'INVARIANT MemoCompleteWhenVisible\n'
             'PROPERTY PrivateStacks\n%sCHECK_DEADLOCK FALSE\n')
     live = "PROPERTY AllRendersFinish\n"
     out = [("rs-2t", base % ('"A", "B"', '"p1", "p2"', '"A", "B"', 2, "FALSE", live), None),
